@@ -11,10 +11,14 @@ open BbRe.InputRoot
 def ActResp (c : CAS) (act : Children → Children × Out) : Prop :=
   ∀ a b, ChRel (Equiv c) a b → (act a).2 = (act b).2 ∧ ChRel (Equiv c) (act a).1 (act b).1
 
-theorem withDir_equiv (c : CAS) (act : Children → Children × Out) (hact : ActResp c act) :
+/-- Two actions that treat equivalent contents alike (e.g. attach equivalent nodes). -/
+def ActRel (c : CAS) (actL actE : Children → Children × Out) : Prop :=
+  ∀ a b, ChRel (Equiv c) a b → (actL a).2 = (actE b).2 ∧ ChRel (Equiv c) (actL a).1 (actE b).1
+
+theorem withDir_equiv2 (c : CAS) (actL actE : Children → Children × Out) (hact : ActRel c actL actE) :
     ∀ (p : Path) (l e : Node), Equiv c l e →
-      (withDir c [] act p l).2 = (withDir c [] act p e).2 ∧
-      Equiv c (withDir c [] act p l).1 (withDir c [] act p e).1 := by
+      (withDir c [] actL p l).2 = (withDir c [] actE p e).2 ∧
+      Equiv c (withDir c [] actL p l).1 (withDir c [] actE p e).1 := by
   intro p
   induction p with
   | nil =>
@@ -39,19 +43,25 @@ theorem withDir_equiv (c : CAS) (act : Children → Children × Out) (hact : Act
         have := ih ca cb hr
         exact ⟨this.1, equiv_dir (chrel_replaceFirst hc x this.2)⟩
 
+theorem withDir_equiv (c : CAS) (act : Children → Children × Out) (hact : ActResp c act) :
+    ∀ (p : Path) (l e : Node), Equiv c l e →
+      (withDir c [] act p l).2 = (withDir c [] act p e).2 ∧
+      Equiv c (withDir c [] act p l).1 (withDir c [] act p e).1 :=
+  withDir_equiv2 c act act hact
+
 /-! ### faults -/
 
-theorem fetch_fault (c : CAS) (F : List Dig) (d : Dig) :
-    fetch c F d = fetch c [] d ∨ (fetch c F d).result = .error .unavailable := by
+theorem fetch_fault (c : CAS) (F : List Dig) (d : Dig) (m : Option Path) :
+    fetch c F d m = fetch c [] d m ∨ (fetch c F d m).result = .error .unavailable := by
   by_cases h : d ∈ F
-  · right; simp [fetch, h]
-  · left; simp [fetch, h]
+  · right; simp [fetch, fetchBase, h]
+  · left; simp [fetch, fetchBase, h]
 
 theorem contents_fault (c : CAS) (F : List Dig) (n : Node) :
     contents c F n = contents c [] n ∨ contents c F n = .err .unavailable := by
   cases n with
-  | lazy d =>
-    rcases fetch_fault c F d with h | h
+  | lazy d m =>
+    rcases fetch_fault c F d m with h | h
     · left; simp [contents, h]
     · right; simp [contents, h]
   | _ => left; rfl
@@ -207,22 +217,49 @@ theorem actMerge_resp (c : CAS) (new : Children) : ActResp c (actMerge new) := b
   · exact ⟨by first | rfl | trivial, h⟩
   · exact ⟨by first | rfl | trivial, chrel_append h (ChRel.refl (Equiv.refl c) new)⟩
 
-theorem actOf_resp (c : CAS) (op : Op) : ActResp c (actOf c [] op) := by
-  cases op with
-  | merge d => intro a b h; exact ⟨by first | rfl | trivial, h⟩
-  | lookup p x => exact actLookup_resp c x
-  | readdir p => exact actReaddir_resp c
-  | leaf o p x => exact actLeaf_resp c [] o x
-  | remove p x => exact actRemove_resp c x
-  | create p x => exact actCreate_resp c x
-  | mkdir p x => exact actMkdir_resp c x
+theorem actNop_resp (c : CAS) : ActResp c actNop := fun _ _ h => ⟨rfl, h⟩
+
+theorem actErase_resp (c : CAS) (x : Name) : ActResp c (actErase x) :=
+  fun _ _ h => ⟨rfl, chrel_eraseFirst h x⟩
+
+theorem actForceChild_resp (c : CAS) (x : Name) : ActResp c (actForceChild c [] x) := by
+  intro a b h
+  rcases chrel_lookup h x with ⟨h1, h2⟩ | ⟨ca, cb, h1, h2, hr⟩
+  · simp only [actForceChild, h1, h2]; exact ⟨by first | rfl | trivial, h⟩
+  · simp only [actForceChild, h1, h2]
+    have hc := hr.contents
+    cases hl : contents c [] ca <;> cases he : contents c [] cb <;> rw [hl, he] at hc <;>
+      simp only [ContRel] at hc
+    · exact ⟨by first | rfl | trivial, h⟩
+    · exact ⟨by first | rfl | trivial, h⟩
+    · cases hc with
+      | nil => exact ⟨by first | rfl | trivial, chrel_replaceFirst h x (equiv_dir .nil)⟩
+      | cons hab hrest =>
+        exact ⟨by first | rfl | trivial, chrel_replaceFirst h x (equiv_dir (.cons hab hrest))⟩
+
+theorem actPut_rel (c : CAS) (x : Name) {v w : Node} (hvw : Equiv c v w) :
+    ActRel c (actPut x v) (actPut x w) := by
+  intro a b h
+  rcases chrel_lookup h x with ⟨h1, h2⟩ | ⟨ca, cb, h1, h2, _⟩
+  · simp only [actPut, h1, h2]
+    exact ⟨by first | rfl | trivial, chrel_append h (.cons hvw .nil)⟩
+  · simp only [actPut, h1, h2]
+    exact ⟨by first | rfl | trivial, chrel_replaceFirst h x hvw⟩
+
+theorem actPutNew_rel (c : CAS) (x : Name) {v w : Node} (hvw : Equiv c v w) :
+    ActRel c (actPutNew x v) (actPutNew x w) := by
+  intro a b h
+  rcases chrel_lookup h x with ⟨h1, h2⟩ | ⟨ca, cb, h1, h2, _⟩
+  · simp only [actPutNew, h1, h2]
+    exact ⟨by first | rfl | trivial, chrel_append h (.cons hvw .nil)⟩
+  · simp only [actPutNew, h1, h2]; exact ⟨by first | rfl | trivial, h⟩
 
 /-! ### actions under faults -/
 
 theorem leafOut_fault (c : CAS) (F : List Dig) (op : LeafOp) (n : Node) :
     leafOut c F op n = leafOut c [] op n ∨ leafOut c F op n = .status .eio := by
   cases n with
-  | file d x =>
+  | file d x m =>
     cases op with
     | read off len =>
       by_cases h0 : min len (d.size - off) = 0
@@ -253,11 +290,18 @@ theorem actRemove_fault (c : CAS) (F : List Dig) (x : Name) :
     · left; simp [actRemove, hx, h]
     · right; simp only [actRemove, hx, h]; exact ⟨by first | rfl | trivial, ChRel.refl (Equiv.refl c) ch⟩
 
-theorem actOf_fault (c : CAS) (F : List Dig) (op : Op) : ActFault c (actOf c F op) (actOf c [] op) := by
-  cases op with
-  | leaf o p x => exact actLeaf_fault c F o x
-  | remove p x => exact actRemove_fault c F x
-  | _ => intro ch; left; rfl
+theorem act_fault_same (c : CAS) (act : Children → Children × Out) : ActFault c act act :=
+  fun _ => Or.inl rfl
+
+theorem actForceChild_fault (c : CAS) (F : List Dig) (x : Name) :
+    ActFault c (actForceChild c F x) (actForceChild c [] x) := by
+  intro ch
+  cases hx : lookup ch x with
+  | none => left; simp [actForceChild, hx]
+  | some n =>
+    rcases contents_fault c F n with h | h
+    · left; simp [actForceChild, hx, h]
+    · right; simp only [actForceChild, hx, h]; exact ⟨by first | rfl | trivial, ChRel.refl (Equiv.refl c) ch⟩
 
 /-! ### exploration keeps the tree -/
 
@@ -269,5 +313,59 @@ theorem actLookup_keeps (c : CAS) (x : Name) : ActKeeps c (actLookup x) :=
 
 theorem actReaddir_keeps (c : CAS) : ActKeeps c actReaddir :=
   fun ch => ChRel.refl (Equiv.refl c) ch
+
+theorem actNop_keeps (c : CAS) : ActKeeps c actNop :=
+  fun ch => ChRel.refl (Equiv.refl c) ch
+
+theorem actForceChild_keeps (c : CAS) (F : List Dig) (x : Name) : ActKeeps c (actForceChild c F x) := by
+  intro ch
+  cases hx : lookup ch x with
+  | none => simp only [actForceChild, hx]; exact ChRel.refl (Equiv.refl c) ch
+  | some n =>
+    simp only [actForceChild, hx]
+    cases hn : contents c F n with
+    | notDir => exact ChRel.refl (Equiv.refl c) ch
+    | err e => exact ChRel.refl (Equiv.refl c) ch
+    | ok g =>
+      have hn0 : contents c [] n = .ok g := by
+        rcases contents_fault c F n with h | h
+        · rw [hn] at h; exact h.symm
+        · rw [hn] at h; cases h
+      cases g with
+      | nil => exact chrel_replace_self (Equiv.refl c) ch x n _ hx (equiv_force hn0)
+      | cons g gs => exact chrel_replace_self (Equiv.refl c) ch x n _ hx (equiv_force hn0)
+
+/-! ### walking to a directory -/
+
+theorem actIsDir_resp (c : CAS) (x : Name) : ActResp c (actIsDir x) := by
+  intro a b h
+  refine ⟨?_, h⟩
+  rcases chrel_lookup h x with ⟨h1, h2⟩ | ⟨ca, cb, h1, h2, hr⟩
+  · simp [actIsDir, h1, h2]
+  · simp [actIsDir, h1, h2, hr.kind]
+
+theorem actIsDir_keeps (c : CAS) (x : Name) : ActKeeps c (actIsDir x) :=
+  fun ch => ChRel.refl (Equiv.refl c) ch
+
+theorem walkTo_equiv (c : CAS) (p : Path) (l e : Node) (h : Equiv c l e) :
+    (walkTo c [] p l).2 = (walkTo c [] p e).2 ∧ Equiv c (walkTo c [] p l).1 (walkTo c [] p e).1 := by
+  simp only [walkTo]
+  cases p.getLast? with
+  | none => exact ⟨rfl, h⟩
+  | some x => exact withDir_equiv c _ (actIsDir_resp c x) _ l e h
+
+theorem walkTo_keeps (c : CAS) (F : List Dig) (p : Path) (n : Node) : Equiv c (walkTo c F p n).1 n := by
+  simp only [walkTo]
+  cases p.getLast? with
+  | none => exact Equiv.refl c n
+  | some x => exact withDir_keeps c F _ (actIsDir_keeps c x) _ n
+
+theorem walkTo_fault (c : CAS) (F : List Dig) (p : Path) (n : Node) :
+    walkTo c F p n = walkTo c [] p n ∨
+    ((walkTo c F p n).2 = .status .eio ∧ Equiv c (walkTo c F p n).1 n) := by
+  simp only [walkTo]
+  cases p.getLast? with
+  | none => left; rfl
+  | some x => exact withDir_fault c F _ _ (act_fault_same c _) _ n
 
 end BbRe.Lemmas.InputRoot
